@@ -27,6 +27,7 @@ const expP = "internal/core/export"
 
 func checkC07(c *Ctx) {
 	c07HoistedNames(c)
+	c07PivotPassOrder(c)
 	c07MergeAndFinalize(c)
 	c.checkCounterBalance("counters.inc-dec-balanced", "internal/core/export", map[string]string{
 		// reviewed: a structural leak, but no failing input was found
@@ -465,4 +466,69 @@ func c07HoistedNames(c *Ctx) {
 	}
 	c.check("hoist.let-name-is-an-identifier", f.Name, f.Decl.Pos(), ok,
 		"the name of a hoisted let is derived from a field label, which may be any string: between taking the label text (IdentString) and p.x.uniqueFeature(name) the name must be validated or sanitised with ast.IsValidIdent, or exporter.ident panics (`X=\"foo-bar\": {...}` referenced from the exported sub-value)")
+}
+
+// c07PivotPassOrder: pivotter.linkDependencies is a sequence of whole passes
+// over the collected dependencies; each pass needs the previous one to be
+// complete for *all* dependencies (parents linked before their closure is
+// taken; every name used by any hoisted value reserved before the first let
+// name is chosen — uniqueFeature only avoids names it has seen). Two passes
+// fused into one loop give early dependencies a view in which the later ones
+// do not exist yet.
+func c07PivotPassOrder(c *Ctx) {
+	const rule = "hoist.passes-complete-before-next"
+	f := c.fn("internal/core/export", "(*pivotter).linkDependencies")
+	info := f.Info()
+	passes := []string{"markDeps", "markParentsPass1", "getParent", "markUsedFeatures", "makeParentPath"}
+	type site struct {
+		pos  token.Pos
+		loop ast.Node
+	}
+	sites := map[string]site{}
+	var stack []ast.Node
+	ast.Inspect(f.Body, func(x ast.Node) bool {
+		if x == nil {
+			stack = stack[:len(stack)-1]
+			return true
+		}
+		stack = append(stack, x)
+		call, ok := x.(*ast.CallExpr)
+		if !ok {
+			return true
+		}
+		nm := calleeName(info, call)
+		for _, p := range passes {
+			if strings.HasSuffix(nm, "."+p) || strings.HasSuffix(nm, ")."+p) {
+				if _, seen := sites[p]; seen {
+					continue
+				}
+				var loop ast.Node
+				for i := len(stack) - 1; i >= 0; i-- {
+					switch stack[i].(type) {
+					case *ast.RangeStmt, *ast.ForStmt:
+						if loop == nil {
+							loop = stack[i]
+						}
+					}
+				}
+				sites[p] = site{call.Pos(), loop}
+			}
+		}
+		return true
+	})
+	for i := 0; i+1 < len(passes); i++ {
+		a, okA := sites[passes[i]]
+		b, okB := sites[passes[i+1]]
+		if !okA || !okB {
+			c.check(rule, f.Name+"/"+passes[i]+"<"+passes[i+1], f.Decl.Pos(), false, "anchor: linkDependencies no longer calls "+passes[i]+" and "+passes[i+1])
+			continue
+		}
+		end := a.pos
+		if a.loop != nil {
+			end = a.loop.End()
+		}
+		ok := end <= b.pos && (a.loop == nil || a.loop != b.loop)
+		c.check(rule, f.Name+"/"+passes[i]+"<"+passes[i+1], b.pos, ok,
+			"the pass calling "+passes[i]+" must have completed for every dependency (its loop ended) before "+passes[i+1]+" is first called")
+	}
 }
